@@ -1467,19 +1467,6 @@ impl<'a> HistoryIterator<'a> {
 		self.inner.prev()
 	}
 
-	/// Skip all remaining entries for the current user_key.
-	/// Returns true if positioned on a new user_key, false if iterator exhausted.
-	fn skip_to_next_user_key(&mut self) -> Result<bool> {
-		let current = self.current_user_key.clone();
-		while self.inner_valid() {
-			if self.inner_key().user_key() != current.as_slice() {
-				return Ok(true);
-			}
-			self.inner_next()?;
-		}
-		Ok(false)
-	}
-
 	// --- Bounds checking ---
 	// KMergeIterator handles bounds via InternalKeyRange, but upper_bound
 	// is still needed for the merged bplustree path where the bplustree
@@ -1611,11 +1598,11 @@ impl<'a> HistoryIterator<'a> {
 					continue;
 				}
 				if timestamp < ts_start {
-					// Below range - all remaining entries for this key are also below
-					// (timestamps are ordered descending within a key).
-					if !self.skip_to_next_user_key()? {
-						return Ok(false);
-					}
+					// Below range - skip this entry only. The remaining entries of the
+					// key are NOT necessarily below the range as well: unflushed
+					// versions come in commit order, and timestamps may have been
+					// written out of order.
+					self.inner_next()?;
 					continue;
 				}
 			}
